@@ -886,7 +886,7 @@ fn families(prop: &str) -> Vec<Case> {
     let mut v: Vec<Case> = vec![];
     match prop {
         "C01" | "C12" => { if prop == "C12" { fam_gens(prop, &mut v); fam_batch(prop, &mut v); } fam_completeness(prop, &mut v); }
-        "C02" | "C04" | "C05" => { fam_binding(prop, &mut v); fam_batch(prop, &mut v); if prop == "C05" { fam_panics(prop, &mut v); } if prop == "C02" { fam_modes(prop, &mut v); } fam_completeness(prop, &mut v); }
+        "C02" | "C04" | "C05" => { fam_binding(prop, &mut v); fam_batch(prop, &mut v); if prop == "C05" { fam_panics(prop, &mut v); fam_codec(prop, &mut v); } if prop == "C02" { fam_modes(prop, &mut v); } fam_completeness(prop, &mut v); }
         "C03" | "C08" => { fam_batch(prop, &mut v); }
         "C06" | "C07" => { fam_prover(prop, &mut v); if prop == "C07" { fam_binding(prop, &mut v); fam_batch(prop, &mut v); } }
         "C09" | "C10" => { fam_modes(prop, &mut v); fam_completeness(prop, &mut v); fam_batch(prop, &mut v); }
